@@ -26,6 +26,7 @@ type Obligation struct {
 	Prefix int
 	sc     *Script
 	IsSat  bool // reach obligations: must be satisfiable
+	Info   bool // informational (never a failure): reported in the evidence coverage
 	Res    SolveResult
 	Inputs []cexInput
 	Raw    []string // complete query (lemmas, tables)
@@ -126,6 +127,9 @@ type Exec struct {
 	freshRefs       map[string]bool
 	allocLimitTerm  string
 	flagRegs        map[string][]*LValue
+	houdiniCache    map[string]map[string]bool // shared between trial clones
+	hinted          map[string]int             // keys whose cache entry came from the hints file (size of the hinted set)
+	hintPrefix      string
 	globalsInit     map[string]bool
 	atomicOnly      map[string][]string
 	inAtomic        bool
@@ -144,7 +148,7 @@ func newExec(eng *Engine, unit string) *Exec {
 		depthLimit: 8, hiddenCells: map[cellKey]types.Type{},
 		views: map[string]*viewInfo{}, boxed: map[string]Val{}, mapIterModified: map[cellKey]bool{},
 		loopCtxs: map[loopKey]*loopCtx{}, lockComps: map[string]bool{}, sentinelInit: map[string]bool{},
-		flagRegs: map[string][]*LValue{}, globalsInit: map[string]bool{}, trimBounds: map[string][2]string{}, atomicCells: map[string]bool{}, freshRefs: map[string]bool{},
+		flagRegs: map[string][]*LValue{}, houdiniCache: map[string]map[string]bool{}, hinted: map[string]int{}, globalsInit: map[string]bool{}, trimBounds: map[string][2]string{}, atomicCells: map[string]bool{}, freshRefs: map[string]bool{},
 	}
 	return ex
 }
@@ -511,6 +515,11 @@ func (ex *Exec) addEdge(fr *Frame, li *loopInfo, from, to *ssa.BasicBlock, cond 
 }
 
 func (ex *Exec) execBlock(fr *Frame, b *ssa.BasicBlock, reach string, st *State, in map[*ssa.BasicBlock][]inEdge, rets *[]retRec, li *loopInfo) {
+	// assumptions made between instructions (terminators, specification loads at
+	// returns and back edges) are guarded by the block's reach
+	savedG := ex.sc.guard
+	ex.sc.guard = reach
+	defer func() { ex.sc.guard = savedG }()
 	for _, ins := range b.Instrs {
 		switch x := ins.(type) {
 		case *ssa.DebugRef:
@@ -530,6 +539,16 @@ func (ex *Exec) execBlock(fr *Frame, b *ssa.BasicBlock, reach string, st *State,
 				vals[i] = ex.get(fr, r)
 			}
 			if fr.top {
+				// informational: is this return reachable under the assumptions? (a
+				// postcondition proved at an unreachable return says nothing)
+				if fr.ctr != nil && len(fr.ctr.Ensures)+len(fr.ctr.Witness) > 0 {
+					n := len(ex.obls)
+					ex.obligeSat(fr, "reach-site", "return at "+ex.posOf(x.Pos())+" is reachable under the assumptions", reach)
+					if len(ex.obls) > n {
+						ex.obls[len(ex.obls)-1].Info = true
+						ex.obls[len(ex.obls)-1].Pos = ex.posOf(x.Pos())
+					}
+				}
 				ex.atReturn(fr, st, reach, vals, x.Pos())
 			}
 			*rets = append(*rets, retRec{reach, st, vals})
